@@ -304,6 +304,13 @@ var _ = os.Stderr
 // repeated, optional and oneof fields, and declares a local enum with the SAME name as the imported
 // one. Returns generated file name -> content.
 func ImportPair(pluginPath, goBase string) (map[string]string, error) {
+	return ImportGroup(pluginPath, goBase, "paths=source_relative")
+}
+
+// ImportGroup is ImportPair with an explicit plugin parameter (output file NAMES depend on
+// `paths=` / `module=`). The group also holds only/only.proto, a file with nothing but an enum,
+// imported by imp.
+func ImportGroup(pluginPath, goBase, param string) (map[string]string, error) {
 	lbl, rep := descriptorpb.FieldDescriptorProto_LABEL_OPTIONAL, descriptorpb.FieldDescriptorProto_LABEL_REPEATED
 	tEnum, tMsg, tI32 := descriptorpb.FieldDescriptorProto_TYPE_ENUM, descriptorpb.FieldDescriptorProto_TYPE_MESSAGE, descriptorpb.FieldDescriptorProto_TYPE_INT32
 	level := func(name string) *descriptorpb.EnumDescriptorProto {
@@ -321,6 +328,10 @@ func ImportPair(pluginPath, goBase string) (map[string]string, error) {
 			{Name: s("v"), Number: i32(1), Label: &lbl, Type: &tI32, JsonName: s("v")},
 			{Name: s("l"), Number: i32(2), Label: &lbl, Type: &tEnum, TypeName: s(".dep.Level"), JsonName: s("l")}}}},
 	}
+	only := &descriptorpb.FileDescriptorProto{Name: s("only/only.proto"), Package: s("only"), Syntax: s("proto3"),
+		Options:  &descriptorpb.FileOptions{GoPackage: s(goBase + "/only")},
+		EnumType: []*descriptorpb.EnumDescriptorProto{level("Grade")},
+	}
 	localLevel := &descriptorpb.EnumDescriptorProto{Name: s("Level"), Value: []*descriptorpb.EnumValueDescriptorProto{
 		{Name: s("LOCAL_NONE"), Number: i32(0)}, {Name: s("LOCAL_SOME"), Number: i32(5)}}}
 	user := &descriptorpb.DescriptorProto{Name: s("User"),
@@ -334,18 +345,19 @@ func ImportPair(pluginPath, goBase string) (map[string]string, error) {
 			{Name: s("oe"), Number: i32(6), Label: &lbl, Type: &tMsg, TypeName: s(".dep.Ext"), OneofIndex: i32(0), JsonName: s("oe")},
 			{Name: s("mine"), Number: i32(7), Label: &lbl, Type: &tEnum, TypeName: s(".imp.Level"), JsonName: s("mine")},
 			{Name: s("opt"), Number: i32(8), Label: &lbl, Type: &tMsg, TypeName: s(".dep.Ext"), OneofIndex: i32(1), Proto3Optional: proto.Bool(true), JsonName: s("opt")},
+			{Name: s("grade"), Number: i32(9), Label: &lbl, Type: &tEnum, TypeName: s(".only.Grade"), JsonName: s("grade")},
 		}}
 	imp := &descriptorpb.FileDescriptorProto{Name: s("imp/imp.proto"), Package: s("imp"), Syntax: s("proto3"),
-		Dependency:  []string{"pico.proto", "dep/dep.proto"},
+		Dependency:  []string{"pico.proto", "dep/dep.proto", "only/only.proto"},
 		Options:     &descriptorpb.FileOptions{GoPackage: s(goBase + "/imp")},
 		EnumType:    []*descriptorpb.EnumDescriptorProto{localLevel},
 		MessageType: []*descriptorpb.DescriptorProto{user},
 	}
 	descFile := protodesc.ToFileDescriptorProto(descriptorpb.File_google_protobuf_descriptor_proto)
 	req := &pluginpb.CodeGeneratorRequest{
-		FileToGenerate:  []string{"dep/dep.proto", "imp/imp.proto"},
-		Parameter:       s("paths=source_relative"),
-		ProtoFile:       []*descriptorpb.FileDescriptorProto{descFile, PicoFile(), dep, imp},
+		FileToGenerate:  []string{"dep/dep.proto", "only/only.proto", "imp/imp.proto"},
+		Parameter:       s(param),
+		ProtoFile:       []*descriptorpb.FileDescriptorProto{descFile, PicoFile(), dep, only, imp},
 		CompilerVersion: &pluginpb.Version{Major: i32(3), Minor: i32(21), Patch: i32(12)},
 	}
 	in, err := proto.Marshal(req)
@@ -378,7 +390,10 @@ func ImportPair(pluginPath, goBase string) (map[string]string, error) {
 // declarations have dep's types — not a same-named local one.
 const ImportAssertions = `package imp
 
-import dep "%s/dep"
+import (
+	dep "%[1]s/dep"
+	only "%[1]s/only"
+)
 
 var (
 	_ dep.Level   = (&User{}).Lvl
@@ -390,5 +405,6 @@ var (
 	_ Level       = (&User{}).Mine
 	_ *dep.Ext    = (&User{}).Opt
 	_             = dep.Al_AL_UNO.String()
+	_ only.Grade  = (&User{}).Grade
 )
 `
